@@ -1537,7 +1537,7 @@ func ruleTerminalCtxFresh() check.Rule {
 	return check.Rule{
 		Name:        "TERMINAL-CTX-FRESH",
 		NeedControl: true,
-		Doc:         "(1) in the error / complete callback of an upstream observer, the Error / Complete notification sent to the destination carries that callback's own context parameter (or a context derived from it in the callback), not a context stored from an earlier notification: values attached to the terminal notification upstream are otherwise dropped (Last completes with the context of its last value). (2) an Error re-issued from the subscribe function after an awaited attempt, whose error value was recorded by the attempt's error callback, carries a context recorded by that callback as well, not the subscriber context (Retry's final error loses what was attached between the source and Retry)",
+		Doc:         "(1) in the error / complete callback of the upstream observer of a single-source operator, the Error / Complete notification sent to the destination carries that callback's own context parameter (or a context derived from it in the callback), not a context stored from an earlier notification: values attached to the terminal notification upstream are otherwise dropped (Last completes with the context of its last value). (2) an Error re-issued from the subscribe function after an awaited attempt, whose error value was recorded by the attempt's error callback, carries a context recorded by that callback as well, not the subscriber context (Retry's final error loses what was attached between the source and Retry)",
 		Run: func(c *check.Ctx) {
 			m := c.M
 			n := 0
@@ -1555,6 +1555,12 @@ func ruleTerminalCtxFresh() check.Rule {
 					case e.Ctx.Kind == model.KSrc && (e.Slot == model.SlotError || e.Slot == model.SlotComplete):
 						lit, ok := innermostFunc(m, e.Pkg, e.Node).(*ast.FuncLit)
 						if !ok || e.Pkg != sc.Pkg {
+							continue
+						}
+						// single-source operators only: where several sources end jointly (MergeAll completes with the
+						// outer source's completion context when the last inner one completes) the terminal is the
+						// operator's own event and which stored context it carries is its definition
+						if len(sc.SubSites) != 1 {
 							continue
 						}
 						// the emission stands in the callback literal itself (not in a helper or closure it calls)
